@@ -10,7 +10,8 @@ surrounding system (block processor, mempool tracker, session manager start-up) 
   mp  mempool refresh: idle | running(h) (h captured when D == H == h held)
 
 Events: new_block; bp_advance (B+=1); bp_flush (cache-pressure flush, H=B, no report);
-cu_flush (B==D: the caught-up flush, H=B); cu_report (on_block(fresh token, B)); backup(n)
+cu_flush (B>=D: the caught-up flush, H=B); daemon_fall(k) (second phase only: the daemon switches
+to a shorter branch); cu_report (on_block(fresh token, B)); backup(n)
 (reorg: flush then undo n blocks); mp_begin; mp_end (on_mempool(fresh token, captured h));
 start (SessionManager.serve -> Notifications.start(H) after the first refresh).
 
@@ -34,6 +35,8 @@ PROP = 'C20'
 
 
 class Sys:
+    falling = False
+
     def __init__(self, h0=0):
         from electrumx.server.controller import Notifications
         self.n = Notifications()
@@ -73,12 +76,17 @@ class Sys:
         ev = []
         if self.D < maxh:
             ev.append(('new_block',))
+        if self.falling and self.started:
+            for k in (1, 2):
+                if self.D - k >= 0:
+                    ev.append(('daemon_fall', k))
         if self.ph == 'idle':
             if self.B < self.D:
                 ev.append(('bp_advance',))
             if self.H < self.B:
                 ev.append(('bp_flush',))
-            if self.B == self.D:
+            if self.B >= self.D:
+                # next_block_hashes finds nothing to fetch (also when the daemon is lower)
                 ev.append(('cu_flush',))
             for n in (1, 2):
                 if self.B - n >= 0 and self.started:
@@ -98,8 +106,11 @@ class Sys:
         k = ev[0]
         if k == 'new_block':
             self.D += 1
+        elif k == 'daemon_fall':
+            self.D -= ev[1]
         elif k == 'bp_advance':
             self.B += 1
+            self.R = None           # a report only counts for the height it was made at
         elif k == 'bp_flush':
             self.H = self.B
         elif k == 'cu_flush':
@@ -114,6 +125,7 @@ class Sys:
         elif k == 'backup':
             self.B -= ev[1]
             self.H = self.B
+            self.R = None
         elif k == 'mp_begin':
             self.mp = self.D
         elif k == 'mp_end':
@@ -165,7 +177,9 @@ def build(hist):
 def check_closings(hist, res):
     '''Apply the quiescence closings to a fresh copy of the state and test oracle (2).'''
     base = build(hist)
-    if not base.started:
+    if not base.started or base.B > base.D:
+        # above the daemon the index is not at quiescence and cannot get there without a
+        # further reorganisation; those continuations are explored by the search itself
         return 0
     n = 0
     for kind in ('a',):
@@ -182,12 +196,8 @@ def check_closings(hist, res):
         while s.B < s.D:
             tail.append(('bp_advance',))
             s.apply(tail[-1])
-        if kind == 'a':
-            more = [('cu_flush',), ('cu_report',), ('mp_begin',), ('mp_end',)] \
-                if not (s.R == s.B == s.H == s.D) else [('mp_begin',), ('mp_end',)]
-        else:
-            more = ([('bp_flush',)] if s.H < s.B else []) + \
-                [('mp_begin',), ('mp_end',), ('cu_flush',), ('cu_report',)]
+        # the idle poll reports the current height again every few seconds, then one refresh
+        more = [('cu_flush',), ('cu_report',), ('mp_begin',), ('mp_end',)]
         for ev in more:
             if ev not in s.enabled(99):
                 raise common.Broken(f'closing event {ev} not enabled after {hist}+{seq}+{tail}')
@@ -198,7 +208,14 @@ def check_closings(hist, res):
             n += 1
             lost = sorted(s.owed)
             srcs = ''.join(sorted({s.src[t] for t in lost}))
-            res.violation(f'token-lost:src={srcs}:closing={kind}',
+            where = set()
+            for t in lost:
+                hs = [h for attr in ('_touched_mp', '_touched_bp')
+                      for h, toks in getattr(s.n, attr).items() if t in toks]
+                where.add('dropped' if not hs else
+                          'stranded-above-current-height' if min(hs) > s.D else
+                          'pending-at-or-below-current-height')
+            res.violation(f'token-lost:{"+".join(sorted(where))}:src={srcs}',
                           {'hist': hist, 'closing': full},
                           {'history': hist, 'closing': full, 'lost': lost,
                            'calls': s.calls})
@@ -212,12 +229,14 @@ def check_closings(hist, res):
 def run_case(case, res):
     if 'hist' in case:                      # replay of a single history
         hist = [tuple(e) for e in case['hist']]
+        Sys.falling = True
         s = build(hist)
         if s.bad:
             res.violation('notify-at-unagreed-height', case, {'bad': s.bad, 'calls': s.calls})
         check_closings(hist, res)
         return
     maxh, depth = case['maxh'], case['depth']
+    Sys.falling = bool(case.get('falling'))
     root = []
     seen = {build(root).canon()}
     frontier = collections.deque([root])
@@ -255,14 +274,16 @@ def run_case(case, res):
     res.sample({'example_history': [list(e) for e in hist], 'calls_on_real_object': build(hist).calls})
 
 
-ALL_EVENTS = {'new_block', 'bp_advance', 'bp_flush', 'cu_flush', 'cu_report', 'backup',
+ALL_EVENTS = {'daemon_fall', 'new_block', 'bp_advance', 'bp_flush', 'cu_flush', 'cu_report', 'backup',
               'mp_begin', 'mp_end', 'start'}
 
 
 def run(tier, seed, started):
     maxh, depth = (3, 40) if tier == 'quick' else (4, 60)
-    res = common.Result()
-    run_case({'maxh': maxh, 'depth': depth}, res)
+    fmaxh = 2 if tier == 'quick' else 3
+    res = common.farm(run_case, [{'maxh': maxh, 'depth': depth},
+                                 {'maxh': fmaxh, 'depth': depth, 'falling': True}], seed=seed,
+                      nproc=2, chunk=1)
     c = res.counters
     if c.get('states', 0) < 500 or res.sets.get('event_kinds') != ALL_EVENTS:
         raise common.Broken(f'vacuous C20 run: {c} {res.sets.get("event_kinds")}')
@@ -284,8 +305,9 @@ def run(tier, seed, started):
                         'to the real wiring by C07, whose full-system runs record the real call '
                         'sequences and check them against this automaton.'),
     }
-    assumptions = ['daemon height never decreases (C03 premise: the new chain is longer than what '
-                   'was indexed)', 'a token stands for any non-empty set of script hashes']
+    assumptions = ['phase 1: daemon height never decreases (C03 premise); phase 2: the daemon may '
+                   f'also fall by 1 or 2 (heights 0..{fmaxh}), which is what makes reported heights '
+                   'fall', 'a token stands for any non-empty set of script hashes']
     return finish(PROP, tier, seed, 'model_checking', res, coverage, assumptions, started)
 
 
